@@ -292,6 +292,42 @@ def erase_c(e):
     return (tag,) + tuple(erase_c(x) for x in e[1:])
 
 
+def c_to_json(e):
+    """typed C expression -> JSON for the Lean driver (`cexprOfJ`): integer literals keep their tag"""
+    tag = e[0]
+    if tag == "int":
+        return ["int", str(e[1])]
+    if tag == "num":
+        return ["num", str(e[1]), e[2]]
+    if tag == "var":
+        return ["var", e[1]]
+    if tag in ("fn", "rel"):
+        return [tag, e[1]] + [c_to_json(x) for x in e[2:]]
+    return [tag] + [c_to_json(x) for x in e[1:]]
+
+
+def c_stmts_json(stmts):
+    return [list(s) if s[0] == "U" else [s[0], s[1], c_to_json(s[2])] for s in stmts]
+
+
+def _has_tag(e, tags):
+    return isinstance(e, tuple) and (e[0] in tags or any(_has_tag(x, tags) for x in e[1:]))
+
+
+def _bits(x):
+    return str(int(np.float64(x).view(np.uint64)))
+
+
+def lean_evalc(ctx, f, s, p, mv, t, dt=None):
+    """run the translated C body in the Lean model's typed C semantics (float64); {slot: float} or None"""
+    r = ctx.lean().call({"op": "evalc", "prog": c_stmts_json(f.stmts), "states": [_bits(x) for x in s],
+                         "parameters": [_bits(x) for x in p], "missing_variables": [_bits(x) for x in (mv if mv is not None else [])],
+                         "scalars": [_bits(t)] + ([_bits(dt)] if dt is not None else [])})
+    if not r.get("ok") or r.get("out") is None:
+        return None
+    return {int(i): float(np.uint64(int(b)).view(np.float64)) for i, b in r["out"] if b is not None}
+
+
 def c02_case(ctx: Ctx, case: dict):
     text = case["text"]
     b0 = oracle.build_py(ctx, text, "C02", backend="numpy", on_codegen_error="skip", scheme=SCHEMES)
@@ -350,6 +386,16 @@ def c02_case(ctx: Ctx, case: dict):
         ctx.count("validated")
         if not v.get("verdict"):
             ctx.broke("validator", f"check({fn}, C)", json.dumps({"text": text, "verdict": v}))
+        # typing: the proven check cReal on every expression of the body (theorem C02.cReal_sound)
+        ty = ctx.lean().call({"op": "ctyped", "prog": c_stmts_json(f.stmts)})
+        if ty.get("ok"):
+            f.all_real = bool(ty["all_real"])
+            ctx.count("c_bodies_all_real" if f.all_real else "c_bodies_with_integer_or_fmod_typing")
+            ctx.count("c_exprs_real", sum(1 for b in ty["real"] if b))
+            ctx.count("c_exprs_not_real", sum(1 for b in ty["real"] if not b))
+        else:
+            f.all_real = None
+            ctx.count("ctyped_errors")
     # initial values
     hp = sexp.HP()
     for fn, names, table, n in (("init_state_values", lay["state"], rm.states, ns_), ("init_parameter_values", lay["param"], rm.params, npar)):
@@ -401,6 +447,28 @@ def c02_case(ctx: Ctx, case: dict):
             ok, skip, bad = oracle.compare_outputs(out, exact, slots, spread, fn)
             ctx.count("values_ok", ok)
             ctx.count("values_skipped", skip)
+            # correspondence of the typed C semantics: Lean evalC (float64) vs the compiled code
+            f = funcs.get(fn)
+            if f is not None and not any("UNTRANSLATABLE" in o for o in f.other) and \
+                    not any(_has_tag(st[2], ("fmod", "cmod")) for st in f.stmts if st[0] in ("D", "S")):
+                lv = lean_evalc(ctx, f, s, p, mv, pt["t"], pt["dt"] if ref is not None else None)
+                if lv is not None:
+                    for name, i in slots.items():
+                        if name not in exact or i not in lv:
+                            continue
+                        a, b_ = float(out[i]), lv[i]
+                        if not (np.isfinite(a) and np.isfinite(b_)):
+                            continue
+                        tol = 256 * float(spread.get(name, 0)) + 64 * np.spacing(max(abs(a), abs(b_)))
+                        if abs(a - b_) <= tol:
+                            ctx.count("evalc_agree")
+                        else:
+                            ctx.count("evalc_differ")
+                            ctx.broke("correspondence", "evalC (Lean, typed C semantics) vs gcc",
+                                      json.dumps({"text": text, "fn": fn, "slot": i, "gcc": a, "lean": b_, "point": pt}))
+            if getattr(f, "all_real", None) is True and bad:
+                # theorem C02.cReal_sound: typing cannot be the reason
+                ctx.count("bad_values_in_all_real_bodies", len(bad))
             for (name, got, r_) in bad:
                 f = funcs.get(fn)
                 cls = classify_c(f, slots[name], {"states": s, "parameters": p, "t": pt["t"], "dt": pt["dt"]}, r_, spread.get(name, mpf(0)))
